@@ -77,6 +77,7 @@ def strategy(cell, tier):
         "shape": st.sampled_from(range(len(NP_SHAPES))), "struct": st.sampled_from(range(len(AK_STRUCTS))),
         # NumPy: columns of different dtypes (integer-typed spatial coordinates next to a float temporal one, ...)
         "ints": st.sampled_from((None, None, "spatial", "azimuthal", "last")),
+        "f32": st.booleans(),
     })
 
 
@@ -142,6 +143,12 @@ def check_case(cell, case, ctx):
             return v
 
         rows = [tuple(as_int(names_[j], x) if j in int_cols else x for j, x in enumerate(r)) for r in rows]
+    # Awkward: columns of different float widths (a float32 pt next to float64 angles, as in many files); the stored value is
+    # the float32 number, the arithmetic promotes.  Only where no stored float32 column is squared on its own (rho with t or
+    # without a temporal coordinate): there the unchanged library works in float64 throughout
+    f32_first = bool(be == "awkward" and case.get("f32") and sa[0] == "rhophi" and (d < 4 or sa[2] == "t"))
+    if f32_first:
+        rows = [(float(numpy.float32(r[0])),) + tuple(r[1:]) for r in rows]
     exact = [R.to_cartesian(sa, r) for r in rows]
     if any(not obs.finite(x) for e in exact for x in e):
         ctx.exclude("operand_not_representable")
@@ -235,6 +242,10 @@ def check_case(cell, case, ctx):
         missing = AK_STRUCTS[case["struct"]][3] if len(AK_STRUCTS[case["struct"]]) > 3 else []
         keep = ~numpy.isin(numpy.arange(len(rows)), missing)
         flat = build.ak_flat(sa, rows, mom, cell["spa"])
+        if f32_first:
+            f0_ = ak.fields(flat)[0]
+            flat = ak.zip({f: (ak.values_astype(flat[f], numpy.float32) if f == f0_ else flat[f]) for f in ak.fields(flat)},
+                          with_name=flat.layout.parameter("__record__"), behavior=flat.behavior)
         if missing:
             flat = ak.zip({f: ak.mask(flat[f], keep) for f in ak.fields(flat)}, with_name=flat.layout.parameter("__record__"),
                           behavior=flat.behavior)
